@@ -353,7 +353,7 @@ pub fn run(args: &Args, out: &mut Out) {
         for line in lines {
             if let Some(id) = line.strip_prefix("C04.fix\t") {
                 run_one(id, out, &mut hist);
-            } else if let Some(rest) = line.strip_prefix("C04.reelab\t") {
+            } else if let Some(rest) = line.strip_prefix("C04.reelab\t").or_else(|| line.strip_prefix("C04.accept\t")) {
                 let src = reelab::unescape(rest.split('\t').next().unwrap_or(""));
                 reelab::run_source(&src, out, &mut hist);
             }
